@@ -161,6 +161,39 @@ def unfilter(e, transparent=()):
     return e, list(reversed(fs))
 
 
+def subst(e, env: dict):
+    """The expression with every name bound in `env` ({% set name = value %}, macro parameters) replaced by its value
+    (values are expected to be substituted already; a chain of sets is followed)."""
+    if isinstance(e, tuple) and len(e) == 2 and e[0] == "name" and e[1] in env:
+        v = env[e[1]]
+        return v if v == e else subst(v, {k: x for k, x in env.items() if k != e[1]})
+    if isinstance(e, tuple):
+        return tuple(subst(x, env) if isinstance(x, tuple) else x for x in e)
+    return e
+
+
+def inline_macros(tree, rel: str, e, _depth=0):
+    """`helper(args)` used as a VALUE (`{{ helper(x) | filter }}`, `{% set v = helper(x) %}`): when the macro `helper` of the same
+    template consists of one `{{ expression }}` and nothing else, its value is that expression with the parameters bound.
+    Macros with any other body (text, control flow) are left as calls -- the caller then sees an unknown function."""
+    if not isinstance(e, tuple):
+        return e
+    e = tuple(inline_macros(tree, rel, x, _depth) if isinstance(x, tuple) else x for x in e)
+    if e and e[0] == "call" and isinstance(e[1], tuple) and e[1][0] == "name" and _depth < 8:
+        m = _macros_of(tree, rel).get(e[1][1])
+        if m is not None:
+            body = _items(tree, m.body, rel, {}, _depth + 1)
+            if len(body) == 1 and body[0][0] == "out":
+                params = [a.name for a in m.args]
+                if len(e[2]) <= len(params) and all(k in params for k, _ in e[3]):
+                    env = dict(zip(params[len(params) - len(m.defaults):], (jx(d) for d in m.defaults)))
+                    env.update(zip(params, e[2]))
+                    env.update(dict(e[3]))
+                    if all(p_ in env for p_ in params):
+                        return inline_macros(tree, rel, subst(body[0][1], env), _depth + 1)
+    return e
+
+
 # ----------------------------------------------------------------- config tests
 
 def decide(e, config: dict):
